@@ -148,9 +148,7 @@ func checkFrame(c Case) *vk.Failure {
 				if err == nil || hn != int64(k) || r2.Consumed != k {
 					return vk.Failf("cut-readheader", "%s cut at %d: ReadHeader returned (%d, %v, %v), consumed %d", desc, k, hn, h, err, r2.Consumed)
 				}
-				if (k == 0 && !isCause(err, io.EOF)) || (k > 0 && !isCause(err, io.ErrUnexpectedEOF)) {
-					return vk.Failf("cut-readheader-cause", "%s cut at %d: ReadHeader error %v", desc, k, err)
-				}
+				// (the statement fixes the error class for Unmarshal only; for ReadHeader: failure and the count)
 			}
 		}
 	}
@@ -219,6 +217,11 @@ func checkFrame(c Case) *vk.Failure {
 				return fl
 			}
 			if k >= L {
+				if k == L && with && err != nil && n == int64(L) {
+					// the reader's error arrived TOGETHER with the last byte of the frame: the statement does not say
+					// whether a complete frame wins over the error (io.ReadFull drops it, io.ReadAll reports it)
+					continue
+				}
 				if err != nil || n != int64(L) {
 					return vk.Failf("rerr-after-frame", "%s reader error at/after the end (%d): Unmarshal returned (n=%d, %v), want success", desc, k, n, err)
 				}
@@ -227,8 +230,12 @@ func checkFrame(c Case) *vk.Failure {
 				}
 				continue
 			}
-			if err == nil || !isCause(err, pbm.ErrInjected) {
-				return vk.Failf("rerr-error", "%s reader error at %d (with=%v): Unmarshal returned error %v, want the reader's error", desc, k, with, err)
+			if err == nil { // (which error is returned for a failing reader is not part of the statement: any non-nil error ...)
+				return vk.Failf("rerr-error", "%s reader error at %d (with=%v): Unmarshal reported success although the reader failed inside the frame", desc, k, with)
+			}
+			if isCause(err, io.EOF) && !isCause(err, pbm.ErrInjected) {
+				// ... except a clean io.EOF: that is the statement's signal for "the stream ended properly, stop reading"
+				return vk.Failf("rerr-error", "%s reader failing with %v at %d (with=%v): Unmarshal reported a clean end of stream (%v)", desc, pbm.ErrInjected, k, with, err)
 			}
 			if n != int64(k) {
 				return vk.Failf("rerr-count", "%s reader error at %d (with=%v): Unmarshal returned n=%d", desc, k, with, n)
@@ -313,9 +320,7 @@ func checkBytes(input []byte, target, mode string) *vk.Failure {
 			if n != 32 || r.Consumed != 32 {
 				return vk.Failf("header-size-count", "Unmarshal on %s: n=%d consumed=%d, want exactly 32", desc(), n, r.Consumed)
 			}
-			if ver != wantVer(input) {
-				return vk.Failf("header-size-version", "Unmarshal on %s: version %q, want %q", desc(), ver, wantVer(input))
-			}
+			// (what accompanies the error - e.g. the version - is not part of the statement)
 		}
 		if len(input) == 0 && !isCause(err, io.EOF) {
 			return vk.Failf("empty-input-cause", "Unmarshal on empty input: error %v, want cause io.EOF", err)
@@ -331,10 +336,15 @@ func checkBytes(input []byte, target, mode string) *vk.Failure {
 	if hn != int64(r2.Consumed) || hn < 0 || hn > 32 {
 		return vk.Failf("readheader-count", "ReadHeader on %s returned n=%d, consumed %d", desc(), hn, r2.Consumed)
 	}
-	if (err == nil) != (len(input) >= 32) {
-		return vk.Failf("readheader-result", "ReadHeader on %s returned error %v", desc(), err)
+	// ReadHeader must fail without 32 bytes and must succeed on a complete frame; in between (32 bytes of
+	// anything) the statement leaves it open - an implementation may validate the fields
+	if len(input) < 32 && err == nil {
+		return vk.Failf("readheader-result", "ReadHeader on %s succeeded without a complete header", desc())
 	}
-	if err == nil {
+	if complete && err != nil {
+		return vk.Failf("readheader-result", "ReadHeader on %s (a complete frame) returned error %v", desc(), err)
+	}
+	if err == nil && complete { // the fields are promised for frames only
 		var gv string
 		var ghs, gbs int64
 		if fl := vk.TryF(func() string { return "Header getters on " + desc() }, func() { gv, ghs, gbs = h.GetVersion(), h.GetHeaderSize(), h.GetBodySize() }); fl != nil {
